@@ -280,8 +280,16 @@ def run_adjacency(ctx, r, index):
                                                   'cjk']), 'S')
     recs = []
     for _ in range(r.randint(1, 12)):
-        v = r.choice([1, 2, 3.5, -1, 0.25, 1e-7, 5])
+        v = r.choice([1, 2, 3.5, -1, 0.25, 1e-7, 5, 0, 0.0])
         recs.append((r.choice(O), r.choice(S), v))
+    if r.random() < .4:
+        # an id that only zero-valued records name (incl. the last in sort
+        # order) still belongs to the table
+        recs.append((max(O) if r.random() < .5 else r.choice(O),
+                     max(S) if r.random() < .5 else r.choice(S), 0))
+        recs = [(o, s, (0 if o == recs[-1][0] else v)) for o, s, v in recs]
+    if not any(v for _, _, v in recs):
+        recs.append((O[0], S[0], 2))
     if r.random() < .3:
         o, s, v = recs[0]
         recs.append((o, s, -v))      # cancels
@@ -343,12 +351,15 @@ def run_uc(ctx, r, index):
         if tp == '#x':
             lines.append('#comment\tline')
             continue
+        descr = r.choice(['', '', ' extra description',
+                          ' FLP3FBN01 orig_bc=ACGT new_bc=ACG bc_diffs=0',
+                          ' read_1 len_250'])
         if tp == 'S':
-            lines.append(field_line('S', q + ' extra description', '*'))
+            lines.append(field_line('S', q + (descr or ' d'), '*'))
             obs = q
         elif tp == 'H':
             obs = r.choice(seeds)
-            lines.append(field_line('H', q, obs + ' descr'))
+            lines.append(field_line('H', q + descr, obs + ' descr_x'))
         elif tp == 'L':
             obs = r.choice(seeds)
             lines.append(field_line('L', q, obs))
